@@ -151,7 +151,8 @@ class Contract:
                  old_exprs=(), max_paths=400, loop_modifies=None, abstract=None,
                  config_filter=None, unroll=0, defs=None, lets=None, sampler=None,
                  ghost_init=None, ghost_on_call=None, no_sampling=False,
-                 ghost_on_result=None, native_expand=None, native_ensures=(), split_configs=False):
+                 ghost_on_result=None, native_expand=None, native_ensures=(), split_configs=False,
+                 exc_modifies=None):
         self.target = target
         self.props = list(props)
         self.params = params
@@ -188,6 +189,7 @@ class Contract:
         self.native_expand = native_expand
         self.native_ensures = list(native_ensures)
         self.split_configs = split_configs
+        self.exc_modifies = exc_modifies
 
 
 REGISTRY = {}
